@@ -937,7 +937,7 @@ def _rhs(n, kind, params, consts):
         return "a"
     if kind == "src" and _is_self_call(e, "get_new_line_chars"):
         return ".nl (nlOff s)"
-    if kind == "src" and _is_self_call(e, "get_atcmd_buf"):
+    if kind == "src" and (_is_self_call(e, "get_atcmd_buf") or _is_self_call(e, "get_unsolicited_buf")):
         return ".main"
     raise Unrecognised("T7: unrecognised right-hand side for a %s field" % kind)
 
@@ -1284,6 +1284,97 @@ def _step_seq(sts, ind):
     raise Unrecognised("T9: unrecognised statement (%s)" % k)
 
 
+# ------------------------------------------------------------------------------------ T10
+# the two output steps `process_io_write` / `unsolicited_process_io_write`: fetch
+# write_buf[position]; at the terminator advance the unit's phase (switch on write_state); else
+# offer the byte to io->write and advance only if it was accepted.  The model's ghost parts — the
+# bounds check of the fetch, the event of the io->write call, the event of the unit's end — are
+# part of the template and marked.
+
+WRITERS = [("process_io_write", ".cmd", "", "position", "writeState", "writeSrc", "state", "writeStateAfter", "toC"),
+           ("unsolicited_process_io_write", ".uns", "unsolicited_fsm.", "uposition", "uwriteState", "uwriteSrc", "ustate",
+            "uwriteStateAfter", "toU")]
+
+
+def _writer(ast, name, fsm, pre, fpos, fws, fsrc, fstate, fafter, conv):
+    _, body = find_fn(ast, name)
+    sts = [x for x in body.get("inner", []) if not is_noise(x)]
+    if len(sts) != 5 or [x.get("kind") for x in sts] != ["DeclStmt", "IfStmt", "IfStmt", "UnaryOperator", "ReturnStmt"]:
+        raise Unrecognised("T10: %s is not fetch / terminator / offer / advance / return" % name)
+    d = sts[0]["inner"][0]
+    ini = strip(d["inner"][-1]) if d.get("inner") else {}
+    if not (d.get("name") == "ch" and ini.get("kind") == "ArraySubscriptExpr" and _member_path(ini["inner"][0]) == pre + "write_buf"
+            and _member_path(ini["inner"][1]) == pre + "position"):
+        raise Unrecognised("T10: %s does not fetch write_buf[position]" % name)
+    c = strip(sts[1]["inner"][0])
+    z = strip(c["inner"][1]) if c.get("inner") and len(c["inner"]) == 2 else {}
+    if not (c.get("kind") == "BinaryOperator" and c.get("opcode") == "==" and strip(c["inner"][0]).get("referencedDecl", {}).get("name") == "ch"
+            and z.get("kind") in ("CharacterLiteral", "IntegerLiteral") and int(z.get("value")) == 0) or len(sts[1]["inner"]) != 2:
+        raise Unrecognised("T10: %s does not test ch == 0" % name)
+    th = [x for x in _block(sts[1]["inner"][1]) if not is_noise(x)]
+    if len(th) != 2 or th[0].get("kind") != "SwitchStmt" or th[1].get("kind") != "ReturnStmt" or _member_path(th[0]["inner"][0]) != pre + "write_state":
+        raise Unrecognised("T10: %s: terminator branch is not switch (write_state) / return" % name)
+    _check_ret(th[1])
+    chain = []
+    for labels, stmts in switch_arms(th[0], None, None):
+        if "default" in labels:
+            if [x for x in stmts if not is_noise(x) and x.get("kind") != "BreakStmt"]:
+                raise Unrecognised("T10: non-empty default arm")
+            continue
+        lines = []
+        for st in [x for x in stmts if not is_noise(x)]:
+            if st.get("kind") == "BreakStmt":
+                break
+            e = strip(st)
+            if not (e.get("kind") == "BinaryOperator" and e.get("opcode") == "="):
+                raise Unrecognised("T10: unrecognised statement in a write_state arm")
+            path = _member_path(e["inner"][0])
+            if path == pre + "state" and _member_path(e["inner"][1]) == pre + "write_state_after":
+                lines.append("let s : St := ({ s with %s := s.%s.%s } : St).emit (.flushEnd %s)  -- ghost event: the unit ends"
+                             % (fstate, fafter, conv, fsm))
+                continue
+            if path not in FIELD:
+                raise Unrecognised("T10: assignment to unknown field %s" % path)
+            f, kind = FIELD[path]
+            lines.append("let s : St := { s with %s := %s }" % (f, _rhs(e["inner"][1], kind, [], {})))
+        cond = " || ".join("s.%s == %d" % (fws, int(l)) for l in labels)
+        chain.append((cond, lines))
+    c2 = strip(sts[2]["inner"][0])
+    ok = False
+    if c2.get("kind") == "BinaryOperator" and c2.get("opcode") == "!=":
+        call, one = strip(c2["inner"][0]), strip(c2["inner"][1])
+        if call.get("kind") == "CallExpr" and _calls_member(call, "write") and one.get("kind") == "IntegerLiteral" and one.get("value") == "1":
+            a = strip(call["inner"][1]) if len(call["inner"]) == 2 else {}
+            ok = a.get("referencedDecl", {}).get("name") == "ch"
+    th2 = [x for x in _block(sts[2]["inner"][1]) if not is_noise(x)]
+    if not ok or len(th2) != 1 or th2[0].get("kind") != "ReturnStmt" or len(sts[2]["inner"]) != 2:
+        raise Unrecognised("T10: %s does not return when io->write(ch) != 1" % name)
+    _check_ret(th2[0])
+    if not (sts[3].get("opcode") == "++" and _member_path(sts[3]["inner"][0]) == pre + "position"):
+        raise Unrecognised("T10: %s does not advance position" % name)
+    _check_ret(sts[4])
+    txt = ["/-- `%s` of src/cat.c -/" % name,
+           "def %s (D : Desc) (s : St) (i : SvcIn) : St × Int :=" % name,
+           "  let ch := (writeByte D s %s).1" % fsm,
+           "  let s : St := s.chk (writeByte D s %s).2  -- ghost check: the fetch lies inside its object" % fsm,
+           "  if ch == 0 then",
+           "    let s : St :="]
+    first = True
+    for cond, lines in chain:
+        txt.append("      %sif %s then (" % ("" if first else "else ", cond))
+        for l in lines:
+            txt.append("        " + l)
+        txt.append("        s)")
+        first = False
+    txt.append("      else s")
+    txt += ["    (s, Gen.CAT_STATUS_BUSY)",
+            "  else",
+            "    let s : St := s.emit (.wr %s ch i.wr (unitPart s.%s s.%s))  -- ghost event: the io->write call" % (fsm, fws, fsrc),
+            "    if !i.wr then (s, Gen.CAT_STATUS_BUSY)",
+            "    else ({ s with %s := s.%s + 1 }, Gen.CAT_STATUS_BUSY)" % (fpos, fpos)]
+    return "\n".join(txt)
+
+
 def t9(ast):
     defs = []
     for name in STEPS:
@@ -1294,7 +1385,9 @@ def t9(ast):
         _check_ret(sts[-1])
         defs.append("/-- `%s` of src/cat.c -/\ndef %s (D : Desc) (s : St) : St × Int :=\n  (%s, Gen.CAT_STATUS_BUSY)"
                     % (name, name, _step_seq(sts, "    ")))
-    hdr = ("/-\n  GENERATED by tools/translate.py from small step functions of src/cat.c (T9). Do not edit.\n"
+    for w in WRITERS:
+        defs.append(_writer(ast, *w))
+    hdr = ("/-\n  GENERATED by tools/translate.py from small step functions of src/cat.c (T9, T10). Do not edit.\n"
            "  `Proofs/Steps.lean` proves the model's functions equal to these.\n-/\n"
            "import CatVerif.Model.Fsm\nnamespace Cat.Gen\nopen Cat St\nset_option linter.unusedVariables false\n\n")
     return hdr + "\n\n".join(defs) + "\n\nend Cat.Gen\n"
